@@ -85,3 +85,13 @@ PROPS = {
              "holds as path-order constraints; (e) undefined-global consults globals/globalsRegex.",
         note="Per-program outcomes are not decided. Trusted: rustc MIR, emmyfacts, call-graph over-approximation (trait fan-out)."),
 }
+
+PROPS["C24"] = dict(
+    module="c24", func="run", level="other", crates=["emmylua_ls"],
+    technique="CFG must-pass-through / at-most-once on coroutine MIR + feasible-path enumeration with send counting + panic-site scan",
+    text="Decides the response discipline of the dispatch code on every path: each dispatch arm and the fallback pass "
+         "exactly one responder; the request task sends exactly one Response on every feasible path and isolates the "
+         "handler future from unwinding; requests arriving during initialization are queued and replayed; no panic site "
+         "or silent return sits between initialize_start and initialize_finish. Exhaustive over all 38 arms.",
+    note="Decides the dispatch/wrapper code only; behaviour of the lsp-server crate on stdio and panics inside handlers "
+         "(C25) are outside. Trusted: rustc coroutine MIR (pre-transform), emmyfacts, Option/Result variant feasibility filter.")
